@@ -1,6 +1,7 @@
 import ALV.Common.Json
 import ALV.Model.C17
 import ALV.Model.C17Fine
+import ALV.Model.C17Rec
 import ALV.Spec.C17
 namespace ALV.Driver.C17
 open ALV ALV.J ALV.C17
@@ -205,9 +206,62 @@ def handleFine (j : Json) : Except String Json := do
       ("chunks", arr (fun (a : List Int × Nat) => arr (arr intToJson) (chunksSpec a.2 a.1)) audios),
       ("opens", opensJson cs apiOut cmds)])]
 
+/-! ### recording streams (`entry = "rec"`): histories of record / take / stop / close -/
+
+def parseRCmd (j : Json) : Except String C17Rec.RCmd := do
+  let a ← getArr j
+  match a with
+  | [Json.str "record", c] =>
+    let c ← getNat c
+    if c = 0 then throw "chunk size must be positive"
+    pure (.record c)
+  | [Json.str "take", i, n] => pure (.take (← getNat i) (← getNat n))
+  | [Json.str "stop", i] => pure (.stop (← getNat i))
+  | [Json.str "close"] => pure .close
+  | _ => throw s!"C17 rec: bad command {j.compress}"
+
+def revJson : C17Rec.REv → Json
+  | .recordOk _ => Json.arr [Json.str "record", Json.str "ok"]
+  | .recordRefused => Json.arr [Json.str "record", Json.str "IOError"]
+  | .took xs => Json.arr [Json.str "take", arr intToJson xs]
+  | .stopOk => Json.arr [Json.str "stop", Json.str "ok"]
+  | .skipped => Json.arr [Json.str "skipped", Json.str "ok"]
+  | .closeOk => Json.arr [Json.str "close", Json.str "ok"]
+
+/-- does the command finish (close the device stream of) a recording stream that is NOT the oldest
+    one still in `_recordings`?  (`list.remove` then has to compare two `RecStream`s: finding D22) -/
+def finishesLater (s : C17Rec.RState) (c : C17Rec.RCmd) : Bool :=
+  let s' := C17Rec.stepCmd s c
+  match c with
+  | .close => !s.finished && decide (s.recordings.length ≥ 2)
+  | _ => s.recordings.any fun i => !s'.recordings.contains i && s.recordings.head? != some i
+
+def triggers : C17Rec.RState → List C17Rec.RCmd → List Bool
+  | _, [] => []
+  | s, c :: cs => finishesLater s c :: triggers (C17Rec.stepCmd s c) cs
+
+def handleRec (j : Json) : Except String Json := do
+  let script ← getList parseRCmd (← field j "script")
+  let s := C17Rec.run C17Rec.init script
+  let recs := s.recs.map fun r => Json.mkObj [
+    ("cs", natToJson r.cs), ("out", arr intToJson r.out), ("reads", natToJson r.reads),
+    ("closes", natToJson r.closes), ("done", Json.bool r.done), ("recording", Json.bool r.recording)]
+  pure <| Json.mkObj [
+    ("model", Json.mkObj [
+      ("log", arr revJson s.log), ("streams", Json.arr recs), ("recordings", nats s.recordings),
+      ("terminates", natToJson s.terminated), ("finished", Json.bool s.finished),
+      ("finishes_later", arr Json.bool (triggers C17Rec.init script))]),
+    ("spec", Json.mkObj [
+      -- the property on the model's run: delivered = device data in order; closed once when done
+      ("delivered", Json.bool ((List.range s.recs.length).all fun i =>
+        match s.recs[i]? with
+        | some r => r.out ++ r.buf == C17Rec.devData i r.cs r.reads && r.closes == (if r.done then 1 else 0)
+        | none => true))])]
+
 def handle (entry : String) (j : Json) : Except String Json := do
   match entry with
   | "fine" => handleFine j
+  | "rec" => handleRec j
   | "sched" =>
     let wait ← getBool (← field j "wait")
     let fixed ← getBool (← field j "fixed")
